@@ -23,7 +23,9 @@ fn parse_ins(s: &str) -> Vec<Ins> {
 fn build(ins: &[Ins]) -> LayerEnv { let mut le = LayerEnv::new(); for (s, b, n, v) in ins { le.insert(parse_scope(s), parse_beh(b), os(n), os(v)); } le }
 
 fn env_snap(root: &Path) -> String {
-    fn walk(dir: &Path, pre: &str, out: &mut Vec<String>) {
+    // file contents are shown with the layer path written `$L` (explicit values may mention the layer's own directories)
+    let lp = root.as_os_str().as_bytes().to_vec();
+    fn walk(dir: &Path, pre: &str, lp: &[u8], out: &mut Vec<String>) {
         for e in std::fs::read_dir(dir).unwrap() {
             let e = e.unwrap();
             let name = hex(e.file_name().as_bytes());
@@ -31,11 +33,11 @@ fn env_snap(root: &Path) -> String {
             let p = if pre.is_empty() { name } else { format!("{pre}/{name}") };
             let ft = e.file_type().unwrap();
             if ft.is_symlink() { out.push(format!("L {p}")); }
-            else if ft.is_dir() { out.push(format!("D {p}")); walk(&e.path(), &p, out); }
-            else { out.push(format!("F {p} {}", hex(&std::fs::read(e.path()).unwrap()))); }
+            else if ft.is_dir() { out.push(format!("D {p}")); walk(&e.path(), &p, lp, out); }
+            else { out.push(format!("F {p} {}", hex(&replace(&std::fs::read(e.path()).unwrap(), lp, b"$L")))); }
         }
     }
-    let mut out = vec![]; walk(root, "", &mut out); out.sort(); join(",", &out)
+    let mut out = vec![]; walk(root, "", &lp, &mut out); out.sort(); join(",", &out)
 }
 fn replace(h: &[u8], from: &[u8], to: &[u8]) -> Vec<u8> {
     let mut out = vec![]; let mut i = 0;
@@ -43,12 +45,14 @@ fn replace(h: &[u8], from: &[u8], to: &[u8]) -> Vec<u8> {
     out
 }
 const PROBE_SCOPES: &[&str] = &["A", "B", "L", "P:776562", "P:776f726b6572", "P:6275696c64", "P:6c61756e6368"];
-fn probes(le: &LayerEnv, names: &[Vec<u8>], layer: &Path) -> String {
+fn probes(le: &LayerEnv, names: &[Vec<u8>], layer: &Path, start: Option<&[(Vec<u8>, Vec<u8>)]>) -> String {
     let mut dn: Vec<Vec<u8>> = vec![];
     for n in names { if !dn.contains(n) { dn.push(n.clone()); } }
     let mut e1 = Env::new();
     for n in &dn { e1.insert(os(n), os(b"0")); }
-    let envs = [Env::new(), e1];
+    let mut envs = vec![Env::new(), e1];
+    // the case's own starting environment (values may mention the layer directory as `$L`)
+    if let Some(st) = start { let mut e2 = Env::new(); for (n, v) in st { e2.insert(os(n), os(&replace(v, b"$L", layer.as_os_str().as_bytes()))); } envs.push(e2); }
     let lp = layer.as_os_str().as_bytes();
     let mut parts = vec![];
     for sc in PROBE_SCOPES { for (i, e) in envs.iter().enumerate() {
@@ -60,12 +64,29 @@ fn probes(le: &LayerEnv, names: &[Vec<u8>], layer: &Path) -> String {
     parts.join("|")
 }
 
+/// every way a well-known sub-directory can (not) be a directory: the six kinds of the property's quantifier and six more
+/// (e non-empty directory, C symlink -> symlink -> directory, r relative symlink to a directory, m directory with mode 000,
+///  l symlink loop, p FIFO)
+const KINDS6: [char; 6] = ['a', 'd', 'f', 'D', 'F', 'x'];
+const KINDS12: [char; 12] = ['a', 'd', 'f', 'D', 'F', 'x', 'e', 'C', 'r', 'm', 'l', 'p'];
+fn kind_is_dir(c: char) -> bool { matches!(c, 'd' | 'D' | 'e' | 'C' | 'r' | 'm') }
+
+unsafe extern "C" { fn mkfifo(path: *const std::ffi::c_char, mode: u32) -> i32; }
+
 fn run_case(f: &[String]) -> String {
+    if f.len() != 3 && f.len() != 5 { return "bad-case".into(); }
     let tmp = tempfile::tempdir().unwrap();
+    // `linked`: the layer directory is reached through a symlink
+    let linked = f.len() == 5 && f[4] == "linked";
+    if f.len() == 5 && !(f[4] == "-" || linked) { return "bad-case".into(); }
     let layer = tmp.path().join("layer");
-    std::fs::create_dir(&layer).unwrap();
+    if linked { std::fs::create_dir(tmp.path().join("real")).unwrap(); std::os::unix::fs::symlink(tmp.path().join("real"), &layer).unwrap(); }
+    else { std::fs::create_dir(&layer).unwrap(); }
     std::fs::create_dir(tmp.path().join("somedir")).unwrap();
+    std::os::unix::fs::symlink(tmp.path().join("somedir"), tmp.path().join("hop")).unwrap();
     std::fs::write(tmp.path().join("somefile"), b"x").unwrap();
+    if f[0].chars().count() != 4 { return "bad-case".into(); }
+    let mut closed: Vec<std::path::PathBuf> = vec![];
     for (c, sub) in f[0].chars().zip(["bin", "lib", "include", "pkgconfig"]) {
         let p = layer.join(sub);
         match c {
@@ -75,18 +96,36 @@ fn run_case(f: &[String]) -> String {
             'D' => std::os::unix::fs::symlink(tmp.path().join("somedir"), &p).unwrap(),
             'F' => std::os::unix::fs::symlink(tmp.path().join("somefile"), &p).unwrap(),
             'x' => std::os::unix::fs::symlink(tmp.path().join("nowhere"), &p).unwrap(),
+            'e' => { std::fs::create_dir(&p).unwrap(); std::fs::write(p.join("f"), b"").unwrap(); }
+            'C' => std::os::unix::fs::symlink(tmp.path().join("hop"), &p).unwrap(),
+            // relative to the directory the link lives in (the real layer directory's parent is the temp dir in both layouts)
+            'r' => std::os::unix::fs::symlink("../somedir", &p).unwrap(),
+            'm' => { use std::os::unix::fs::PermissionsExt; std::fs::create_dir(&p).unwrap(); std::fs::set_permissions(&p, std::fs::Permissions::from_mode(0)).unwrap(); closed.push(p.clone()); }
+            'l' => std::os::unix::fs::symlink(sub, &p).unwrap(),
+            'p' => { let cp = std::ffi::CString::new(p.as_os_str().as_bytes()).unwrap(); if unsafe { mkfifo(cp.as_ptr(), 0o644) } != 0 { return "harness-error:mkfifo".into(); } }
             _ => return "bad-case".into(),
         }
     }
-    let ins = parse_ins(&f[1]);
+    let out = run_on(f, &layer);
+    { use std::os::unix::fs::PermissionsExt; for p in closed { let _ = std::fs::set_permissions(&p, std::fs::Permissions::from_mode(0o755)); } }
+    out
+}
+
+fn run_on(f: &[String], layer: &Path) -> String {
+    let lp = layer.as_os_str().as_bytes().to_vec();
+    // explicit values may name the layer's own directories: `$L` stands for the layer path
+    let ins: Vec<Ins> = parse_ins(&f[1]).into_iter().map(|(s, b, n, v)| (s, b, n, replace(&v, b"$L", &lp))).collect();
     let names: Vec<Vec<u8>> = split_list(&f[2], ",").iter().map(|n| unhex(n).unwrap()).collect();
-    if build(&ins).write_to_layer_dir(&layer).is_err() { return "err:io".into(); }
-    let mut snaps = vec![env_snap(&layer)];
-    let le = match LayerEnv::read_from_layer_dir(&layer) { Ok(le) => le, Err(_) => return "probes=err:io".into() };
-    let pr = probes(&le, &names, &layer);
+    let start: Option<Vec<(Vec<u8>, Vec<u8>)>> = if f.len() == 5 && f[3] != "-" {
+        Some(split_list(&f[3], ",").iter().map(|kv| { let (k, v) = kv.split_once('=').unwrap(); (unhex(k).unwrap(), unhex(v).unwrap()) }).collect())
+    } else { None };
+    if build(&ins).write_to_layer_dir(layer).is_err() { return "err:io".into(); }
+    let mut snaps = vec![env_snap(layer)];
+    let le = match LayerEnv::read_from_layer_dir(layer) { Ok(le) => le, Err(_) => return "probes=err:io".into() };
+    let pr = probes(&le, &names, layer, start.as_deref());
     for _ in 0..3 {
-        match LayerEnv::read_from_layer_dir(&layer) {
-            Ok(le) => { if le.write_to_layer_dir(&layer).is_err() { snaps.push("err:io".into()); break; } snaps.push(env_snap(&layer)); }
+        match LayerEnv::read_from_layer_dir(layer) {
+            Ok(le) => { if le.write_to_layer_dir(layer).is_err() { snaps.push("err:io".into()); break; } snaps.push(env_snap(layer)); }
             Err(_) => { snaps.push("err:io".into()); break; }
         }
     }
@@ -94,7 +133,7 @@ fn run_case(f: &[String]) -> String {
 }
 
 fn generate(tier: &str, seed: u64, emit: &mut dyn FnMut(Case)) {
-    let kinds = ['a', 'd', 'f', 'D', 'F', 'x'];
+    let kinds = KINDS6;
     let path = hex(b"PATH"); let ld = hex(b"LD_LIBRARY_PATH"); let cpath = hex(b"CPATH");
     let explicit: Vec<(String, &str)> = vec![
         ("-".into(), "none"),
@@ -123,6 +162,99 @@ fn generate(tier: &str, seed: u64, emit: &mut dyn FnMut(Case)) {
         let ins: Vec<String> = (0..m).map(|_| format!("{}/{}/{}/{}", r.pick(&scopes), r.pick(&["a", "d", "m", "o", "p"]), hex(*r.pick(&vars)), hex(*r.pick(&vals)))).collect();
         let ndirs = k.chars().filter(|c| *c == 'd' || *c == 'D').count();
         emit(Case { fields: vec![k, join(",", &ins), names.clone()], tags: vec![("kind".into(), "rnd".into()), ("ndirs".into(), ndirs.to_string()), ("n_ins".into(), m.to_string())], nontrivial: ndirs > 0 && m > 0 });
+    }
+    generate_more(tier, seed, emit, &names);
+}
+
+/// values a path-list variable may start with / be given explicitly: unset is separate; empty; plain; with empty components
+/// (leading, trailing, doubled separator, the separator alone); the layer's own directories; non-UTF-8; long; other separators
+fn value_pool() -> Vec<Vec<u8>> {
+    let mut v: Vec<Vec<u8>> = [&b""[..], b"0", b"/usr/bin", b":", b"/usr/bin:", b":/opt/lib", b"/a::/b", b"::", b"$L/bin", b"$L/bin:/usr/bin", b"/usr/bin:$L/lib", b"$L/include", b"\xff\xfe", b"with space", b";", b"a\nb", b"$L"].iter().map(|x| x.to_vec()).collect();
+    v.push(vec![b'x'; 300]);
+    v
+}
+/// variable names one edit away from the five path variables (none of them may receive an implicit entry)
+fn near_names() -> Vec<Vec<u8>> {
+    let mut v: Vec<Vec<u8>> = [&b"path"[..], b"Path", b"PATH2", b"XPATH", b"PATH.", b"_PATH", b"LD_LIBRARY_PATH64", b"LD_LIBRARY_PAT", b"LIBRARY_PATH_", b"ld_library_path", b"CPATH ", b"PKG_CONFIG_PATH.d", b"PKG_CONFIG", b"PATH\xff", "P\u{c4}TH".as_bytes(), b"PATH=x"].iter().map(|x| x.to_vec()).collect();
+    v.push(vec![b'P'; 200]);
+    v
+}
+
+fn generate_more(tier: &str, seed: u64, emit: &mut dyn FnMut(Case), names6: &str) {
+    let thorough = tier == "thorough";
+    let vars: [&[u8]; 5] = [b"PATH", b"LD_LIBRARY_PATH", b"LIBRARY_PATH", b"CPATH", b"PKG_CONFIG_PATH"];
+    let path = hex(b"PATH"); let ld = hex(b"LD_LIBRARY_PATH"); let cpath = hex(b"CPATH");
+    let ndirs = |k: &str| k.chars().filter(|c| kind_is_dir(*c)).count();
+    let mk = |k: &str, ins: &str, names: &str, start: &str, flags: &str, kind: &str, extra: Vec<(&str, String)>| {
+        let n_ins = split_list(ins, ",").len();
+        let mut tags = vec![("kind".to_string(), kind.to_string()), ("ndirs".to_string(), ndirs(k).to_string()), ("n_ins".to_string(), n_ins.min(200).to_string()), ("start".to_string(), u8::from(start != "-").to_string()), ("flags".to_string(), flags.to_string())];
+        tags.extend(extra.into_iter().map(|(a, b)| (a.to_string(), b)));
+        Case { fields: vec![k.to_string(), ins.to_string(), names.to_string(), start.to_string(), flags.to_string()], tags, nontrivial: ndirs(k) > 0 }
+    };
+    let mixed = format!("A/a/{path}/2f61,A/m/{path}/3b,B/o/{ld}/2f6c,L/p/{cpath}/2f63");
+    // A. every further kind in every position, the other three all absent / all directories
+    for k in ['e', 'C', 'r', 'm', 'l', 'p'] { for pos in 0..4 { for other in ['a', 'd'] {
+        let ks: String = (0..4).map(|i| if i == pos { k } else { other }).collect();
+        for ins in ["-", mixed.as_str()] { emit(mk(&ks, ins, names6, "-", "-", "kinds2", vec![])); }
+    } } }
+    // B. starting environments that define the path variables with every value of the pool (all six names the same value)
+    let pool = value_pool();
+    let explicit_path = format!("B/o/{path}/2f6f,L/a/{path}/2f6c61,P:776562/p/{path}/2f7072,A/d/{ld}/");
+    for (vi, v) in pool.iter().enumerate() { for ks in ["dddd", "DDDD", "adad", "aaaa"] { for ins in ["-", explicit_path.as_str()] {
+        let start = join(",", &split_list(names6, ",").iter().map(|n| format!("{n}={}", hex(v))).collect::<Vec<_>>());
+        emit(mk(ks, ins, names6, &start, "-", "start", vec![("value", vi.to_string())]));
+    } } }
+    // C. explicit entries whose value is the implicit entry itself (or contains it), every behaviour, with and without the
+    //    same value in the starting environment
+    for beh in ["a", "d", "o", "p"] { for sc in ["A", "B", "L"] { for ks in ["dddd", "aaaa"] { for st in ["-", "own"] {
+        let ins = format!("{sc}/{beh}/{path}/{},{sc}/{beh}/{ld}/{},{sc}/{beh}/{cpath}/{}", hex(b"$L/bin"), hex(b"$L/lib:/x"), hex(b"$L/include"));
+        let start = if st == "-" { "-".to_string() } else { format!("{path}={},{ld}={}", hex(b"$L/bin"), hex(b"/y:$L/lib")) };
+        emit(mk(ks, &ins, names6, &start, "-", "selfref", vec![]));
+    } } } }
+    // D. variable names one edit away from the path variables: explicit entries, probes and starting values on them
+    for n in near_names() {
+        let hn = hex(&n);
+        let names = format!("{names6},{hn}");
+        let ins = format!("A/a/{hn}/2f61,B/p/{hn}/2f62,L/o/{hn}/2f63,A/m/{hn}/3a");
+        // the near name next to delimiters of the real variables in the same directories (a delimiter must not leak to it)
+        let ins2 = format!("A/m/{path}/3a,A/m/{ld}/3b,A/a/{hn}/2f61,A/p/{hn}/2f62,B/m/{cpath}/2c,B/m/{}/7c,B/a/{hn}/2f63,L/m/{}/2b,L/p/{hn}/2f64", hex(b"LIBRARY_PATH"), hex(b"PKG_CONFIG_PATH"));
+        for (ks, start) in [("dddd", "-".to_string()), ("DdCr", format!("{hn}={},{path}={}", hex(b"/s:"), hex(b":")))] {
+            emit(mk(ks, &ins, &names, &start, "-", "nearname", vec![]));
+            emit(mk(ks, &ins2, &names, &start, "-", "nearname", vec![]));
+            emit(mk(ks, "-", &names, &start, "-", "nearname", vec![]));
+        }
+    }
+    // E. many explicit entries in ONE env directory (sizes on both sides of 16/20/32/64/128; `env` or `env.launch`), a few in the
+    //    other scopes, among them the path variables
+    let sizes: &[usize] = if thorough { &[15, 16, 17, 20, 21, 22, 31, 32, 33, 63, 64, 65, 127, 128, 129, 200] } else { &[17, 21, 33, 65, 129] };
+    for (si, n) in sizes.iter().enumerate() { for (vi, (ks, main)) in [("dddd", "A"), ("DaeC", "L")].iter().enumerate() {
+        let mut r = Rng::for_case(seed, 3_000_000 + (si * 2 + vi) as u64);
+        let behs = ["a", "d", "m", "o", "p"];
+        let mut ins: Vec<String> = (0..*n).map(|i| format!("{main}/{}/{}/{}", behs[i % 5], hex(format!("V{:03}", i / 5).as_bytes()), hex(format!("v{i}").as_bytes()))).collect();
+        for sc in ["A", "B", "L", "P:776562"] { if sc != *main { ins.push(format!("{sc}/a/{}/{}", hex(b"V000"), hex(b"other"))); } }
+        for v in vars { ins.push(format!("{}/{}/{}/{}", r.pick(&["A", "B", "L"]), r.pick(&["a", "p", "o"]), hex(v), hex(b"/big"))); }
+        r.shuffle(&mut ins);
+        let names = format!("{names6},{},{}", hex(b"V000"), hex(format!("V{:03}", (n - 1) / 5).as_bytes()));
+        let start = format!("{path}={},{}={}", hex(b"/s"), hex(b"V001"), hex(b"s1"));
+        emit(mk(ks, &join(",", &ins), &names, &start, "-", "big", vec![("size", n.to_string())]));
+    } }
+    // F. sampled: all twelve kinds, entries on path variables, near names and others with values from the pool, random starting
+    //    environment (each name unset / a pool value), now and then through a symlinked layer directory
+    let near = near_names();
+    let scopes = ["A", "B", "L", "P:776562", "P:6275696c64", "P:6c61756e6368"];
+    let n = if thorough { 6000 } else { 700 };
+    for idx in 0..n {
+        let mut r = Rng::for_case(seed, 2_000_000 + idx);
+        let k: String = (0..4).map(|_| if r.chance(2, 3) { *r.pick(&KINDS12) } else { *r.pick(&['d', 'D', 'e', 'C']) }).collect();
+        let mut pick_name = |r: &mut Rng| -> Vec<u8> { match r.below(10) { 0..=6 => r.pick(&vars).to_vec(), 7 | 8 => r.pick::<Vec<u8>>(&near).clone(), _ => b"OTHER".to_vec() } };
+        let m = r.below(8);
+        let ins: Vec<String> = (0..m).map(|_| { let nm = pick_name(&mut r); format!("{}/{}/{}/{}", r.pick(&scopes), r.pick(&["a", "d", "m", "o", "p"]), hex(&nm), hex(r.pick::<Vec<u8>>(&pool))) }).collect();
+        let mut all_names: Vec<String> = split_list(names6, ",").iter().map(|s| s.to_string()).collect();
+        for _ in 0..r.below(3) { let nm = hex(r.pick::<Vec<u8>>(&near)); if !all_names.contains(&nm) { all_names.push(nm); } }
+        let start: Vec<String> = all_names.iter().filter_map(|nm| if r.chance(1, 2) { Some(format!("{nm}={}", hex(r.pick::<Vec<u8>>(&pool)))) } else { None }).collect();
+        let start = if start.is_empty() && r.chance(1, 2) { "-".to_string() } else { join(",", &start) };
+        let flags = if r.chance(1, 6) { "linked" } else { "-" };
+        emit(mk(&k, &join(",", &ins), &all_names.join(","), &start, flags, "rnd2", vec![]));
     }
 }
 
